@@ -74,6 +74,9 @@ def run(ctx):
         if "error" in out:
             raise RuntimeError("driver error %s on %s" % (out["error"], case))
         container = ("numpy", "list", "array")[i % 3]
+        if i % 5 == 0 and isinstance(case.get("psi"), int) and case["psi"] > 0:
+            case = dict(case, psi_np=True)
+            res.hit("psi_as_numpy_integer")
         got = impl.py_distance(case, container)
         res.evaluations += 1
         check_case(ctx, res, case, out, got, container)
